@@ -5,19 +5,20 @@
 //! Lean `LlvmTools` model and with the independent aggregate of the canned lcov exports.
 //! GCC half: generated C programs, gcc --coverage, 0-3 runs, grcov (through real gcov) against an
 //! independent reader of `gcov -b -c` text, for several thread counts.
-use corrlib::lcov::*;
 use corrlib::pipe::*;
 use corrlib::*;
 use grcov::CovResult;
 use serde_json::json;
 use std::collections::BTreeMap;
-use std::io::Write;
 use std::path::Path;
 use std::process::Command;
 use std::time::Duration;
 
 mod consumer;
+mod llvmrun;
 mod llvmtree;
+mod multitu;
+mod realtools;
 
 const PROFDATA_STUB: &str = r#"#!/bin/sh
 # recording stand-in for llvm-profdata: logs argv and, for every path listed on stdin, the id
@@ -36,7 +37,11 @@ done
   done
   printf '\n'
   while IFS= read -r line; do
-    if [ -f "$line" ]; then printf 'PROFILE %s\n' "$(cat "$line")"; else printf 'PROFILE missing:%s\n' "$line"; fi
+    case "$line" in
+      1,*) f="${line#1,}"
+           if [ -f "$f" ]; then printf 'PROFILE %s\n' "$(cat "$f")"; else printf 'PROFILE missing:%s\n' "$f"; fi;;
+      *) printf 'PROFILE badline:%s\n' "$line";;
+    esac
   done
   printf 'END\n'
 } >> "$log.$$"
@@ -59,170 +64,6 @@ fn write_exec(path: &Path, text: &str) {
     std::fs::write(path, text).unwrap();
     use std::os::unix::fs::PermissionsExt;
     std::fs::set_permissions(path, std::fs::Permissions::from_mode(0o755)).unwrap();
-}
-
-fn llvm_half(rep: &mut Report, rng: &mut Rng) {
-    let n = rep.budget(80, 6);
-    let stubs = rep.workdir.join("stubs");
-    std::fs::create_dir_all(&stubs).unwrap();
-    write_exec(&stubs.join("llvm-profdata"), PROFDATA_STUB);
-    write_exec(&stubs.join("llvm-cov"), COV_STUB);
-    let mut reqs = vec![];
-    let mut observed = vec![];
-    for c in 0..n {
-        let dir = rep.workdir.join(format!("llvm{}", c));
-        let _ = std::fs::remove_dir_all(&dir);
-        std::fs::create_dir_all(dir.join("cwd")).unwrap();
-        // ---- profiles: k files with unique ids, spread over a directory, a zip and plain args
-        let k = rng.range(1, 6) as usize;
-        let mut args: Vec<String> = vec![];
-        let mut ids: Vec<String> = vec![];
-        let mut zip_entries: Vec<(String, String)> = vec![];
-        std::fs::create_dir_all(dir.join("profdir/sub")).unwrap();
-        let mut dir_used = false;
-        for i in 0..k {
-            let id = format!("profile-{}-{}", c, i);
-            ids.push(id.clone());
-            match rng.below(3) {
-                // half of the profiles share the file name `default.profraw` (what every instrumented
-                // binary writes) and differ only by their directory
-                0 => {
-                    let p = if rng.chance(1, 2) {
-                        std::fs::create_dir_all(dir.join(format!("profdir/svc{}", i))).unwrap();
-                        format!("profdir/svc{}/default.profraw", i)
-                    } else if rng.chance(1, 2) {
-                        format!("profdir/p{}.profraw", i)
-                    } else {
-                        format!("profdir/sub/p{}.profraw", i)
-                    };
-                    std::fs::write(dir.join(&p), &id).unwrap();
-                    dir_used = true;
-                }
-                1 => zip_entries.push((if rng.chance(1, 2) { format!("z/svc{}/default.profraw", i) } else { format!("z/p{}.profraw", i) }, id)),
-                _ => {
-                    let p = format!("plain{}.profraw", i);
-                    std::fs::write(dir.join(&p), &id).unwrap();
-                    args.push(format!("../{}", p));
-                }
-            }
-        }
-        if dir_used {
-            args.push("../profdir".into());
-        }
-        if !zip_entries.is_empty() {
-            let f = std::fs::File::create(dir.join("profiles.zip")).unwrap();
-            let mut z = zip::ZipWriter::new(f);
-            let o = zip::write::SimpleFileOptions::default().compression_method(zip::CompressionMethod::Stored);
-            for (name, id) in &zip_entries {
-                z.start_file(name.as_str(), o).unwrap();
-                z.write_all(id.as_bytes()).unwrap();
-            }
-            z.finish().unwrap();
-            args.push("../profiles.zip".into());
-        }
-        rng.shuffle(&mut args);
-        // ---- binary tree
-        let nb = rng.range(1, 5) as usize;
-        let mut bins: Vec<(String, bool, Vec<u8>)> = vec![]; // name, fails, lcov
-        std::fs::create_dir_all(dir.join("bins/nested/deeper")).unwrap();
-        let cfg = GenCfg { allow_zero_taken: true, allow_first_branch_nonzero: true, allow_overflow_sum: true, allow_non_ascii: false };
-        for b in 0..nb {
-            let name = format!("bin{}", b);
-            let sub = *rng.pick(&["", "nested/", "nested/deeper/"]);
-            let path = dir.join("bins").join(format!("{}{}", sub, name));
-            let mut elf = vec![0x7f, b'E', b'L', b'F', 2, 1, 1, 0];
-            elf.extend_from_slice(&[0u8; 200]);
-            std::fs::write(&path, &elf).unwrap();
-            let fails = rng.chance(1, 4);
-            let mut secs = vec![gen_section(rng, &cfg)];
-            secs[0].sf = rng.pick(&["src/a.rs", "src/b.rs", "lib/c.rs"]).to_string();
-            secs[0].pre.clear();
-            for r in secs[0].recs.iter_mut() {
-                if let Rec::Fn(st, n) = r {
-                    *st = 10 + (fnv64(n.as_bytes()) % 50) as u32;
-                }
-            }
-            let lcov = render(&secs, false);
-            std::fs::write(format!("{}.lcov", path.display()), &lcov).unwrap();
-            if fails {
-                std::fs::write(format!("{}.fail", path.display()), "x").unwrap();
-            }
-            bins.push((name, fails, lcov));
-        }
-        // decoys: not executables
-        std::fs::write(dir.join("bins/readme.txt"), "hello").unwrap();
-        std::fs::write(dir.join("bins/nested/empty"), "").unwrap();
-        std::fs::write(dir.join("bins/nested/script.sh"), "#!/bin/sh\necho\n").unwrap();
-        let threads = *rng.pick(&[1usize, 2, 4]);
-        let log = dir.join("stub.log");
-        std::env::set_var("STUB_LOG", &log);
-        let out = run_grcov(&RunCfg {
-            dir: &dir.join("cwd"),
-            args: args.clone(),
-            threads,
-            perturb: None,
-            fault: None,
-            limit: Duration::from_secs(60),
-            extra: vec!["-t".into(), "lcov".into(), "--branch".into(), "--no-demangle".into(),
-                "--binary-path".into(), "../bins".into(), "--llvm-path".into(), stubs.to_str().unwrap().into()],
-        });
-        std::env::remove_var("STUB_LOG");
-        let case = json!({"op": "llvm", "args": args, "profiles": ids, "threads": threads,
-            "bins": bins.iter().map(|b| json!({"name": b.0, "fails": b.1, "lcov_hex": hex(&b.2)})).collect::<Vec<_>>()});
-        rep.case(&format!("llvm {} {:?} {:?}", c, args, bins.iter().map(|b| (&b.0, b.1)).collect::<Vec<_>>()), bins.iter().any(|b| b.1) && k >= 2);
-        rep.count(&format!("llvm.profiles={}", k));
-        rep.count(&format!("llvm.failing_bins={}", bins.iter().filter(|b| b.1).count()));
-        if c == 0 {
-            rep.sample(case.clone());
-        }
-        if out.exit != Some(0) {
-            rep.fail("oracle", None, format!("grcov exited with {:?}: {}", out.exit, out.stderr.lines().last().unwrap_or("")), case);
-            continue;
-        }
-        let logtext = std::fs::read_to_string(&log).unwrap_or_default();
-        let merges = logtext.lines().filter(|l| l.starts_with("PROFDATA")).count();
-        let mut seen: Vec<String> = logtext.lines().filter_map(|l| l.strip_prefix("PROFILE ")).map(|s| s.to_string()).collect();
-        seen.sort();
-        let mut want_ids = ids.clone();
-        want_ids.sort();
-        let mut exported: Vec<String> = logtext.lines().filter(|l| l.starts_with("COV export ")).map(|l| l.split(' ').nth(2).unwrap().to_string()).collect();
-        exported.sort();
-        let mut want_bins: Vec<String> = bins.iter().map(|b| b.0.clone()).collect();
-        want_bins.sort();
-        if merges != 1 || seen != want_ids {
-            rep.fail("oracle", None, format!("profiles handed to the merge tool: {:?} in {} invocation(s); expected each of {:?} exactly once in one invocation", seen, merges, want_ids), case.clone());
-        }
-        if exported != want_bins {
-            rep.fail("oracle", None, format!("binaries exported: {:?}; expected each of {:?} exactly once", exported, want_bins), case.clone());
-        }
-        // report = aggregate of the successful exports
-        let inputs: Vec<Input> = bins
-            .iter()
-            .filter(|b| !b.1)
-            .map(|b| Input { name: b.0.clone(), format: "Info", id: String::new(), bytes: b.2.clone(), parsed: grcov::parse_lcov(b.2.clone(), true).unwrap() })
-            .collect();
-        let refs: Vec<&Input> = inputs.iter().collect();
-        let want = show_map(&aggregate(&refs));
-        let got = decode_lcov_report(&out.stdout).map(|m| show_map(&m));
-        if got.as_ref().ok() != Some(&want) {
-            rep.fail("oracle", None, "report differs from the aggregate of the successful exports".into(), json!({"case": case, "report": got, "aggregate": want}));
-        }
-        // model tie
-        reqs.push(format!(
-            "llvm.model {} {}",
-            ids.iter().map(|i| hex(i.as_bytes())).collect::<Vec<_>>().join(","),
-            bins.iter().map(|b| format!("{}:{}", hex(b.0.as_bytes()), if b.1 { "-".to_string() } else { hex(&b.2) })).collect::<Vec<_>>().join(",")
-        ));
-        observed.push((format!("profiles={} exports={} report={}", seen.len(), bins.iter().filter(|b| !b.1).count(), want), case));
-    }
-    let ans = run_model(&reqs, &rep.workdir, "llvm");
-    for i in 0..reqs.len() {
-        if ans[i] != observed[i].0 {
-            rep.disagreements_checked += 1;
-            rep.fail("disagreement", None, "LlvmTools model differs from the observed tool invocations/report".into(),
-                json!({"case": observed[i].1, "observed": observed[i].0, "model": ans[i]}));
-        }
-    }
 }
 
 // ---------------------------------------------------------------------------------------------
@@ -376,22 +217,44 @@ fn gcc_half(rep: &mut Report, rng: &mut Rng) {
 }
 
 pub fn run(rep: &mut Report) {
-    rep.rule = "LLVM: 1-6 profiles over dir/zip/plain arguments, 1-5 ELF-headed binaries in a nested tree (a quarter \
-                fail to export) plus non-executable decoys, recording stub tools; GCC: generated C programs (if/else, \
+    rep.rule = "LLVM (LlvmRun): 1-6 profiles of both kinds (.profraw/.profdata = up to two work items) over dir/zip/plain \
+                arguments at names with commas, '#', blanks, digit-named directories; 1-5 ELF-headed binaries in a nested tree (a \
+                quarter fail to export) plus decoys; stand-in tools whose output depends on their input (merged profile names the \
+                merged ids, export depends on the profile content), --threads 1/2/4; GCC: generated C programs (if/else, \
                 loops, switch with fall-through, &&, early return, header function, unused function) compiled with gcc \
-                --coverage and run 0-3 times, grcov with 1 and 3 threads against gcov -b -c text; non-trivial = a \
-                failing binary and >=2 profiles (LLVM) or at least one run (GCC); distinct = distinct layout/program"
+                --coverage and run 0-3 times, grcov with 1 and 3 threads against gcov -b -c text; non-trivial = two work items \
+                and >=2 threads (LLVM) or at least one run (GCC); distinct = distinct layout/program"
         .to_string();
     let mut rng = Rng::new(rep.seed ^ 0xC20);
-    llvm_half(rep, &mut rng);
+    let t0 = std::time::Instant::now();
+    llvmrun::run(rep, &mut rng);
+    eprintln!("c20 llvmrun part: {} ms", t0.elapsed().as_millis());
+    let t0 = std::time::Instant::now();
     gcc_half(rep, &mut rng);
+    eprintln!("c20 gcc part: {} ms", t0.elapsed().as_millis());
     consumer::run(rep);
+    let t0 = std::time::Instant::now();
     llvmtree::run(rep);
+    eprintln!("c20 llvmtree part: {} ms", t0.elapsed().as_millis());
+    let t0 = std::time::Instant::now();
+    multitu::run(rep);
+    eprintln!("c20 multitu part: {} ms", t0.elapsed().as_millis());
+    let t0 = std::time::Instant::now();
+    realtools::run(rep);
+    eprintln!("c20 realtools part: {} ms", t0.elapsed().as_millis());
 }
 
 pub fn replay(rep: &mut Report, _case: &serde_json::Value) {
     if _case["op"].as_str().map(|o| o.starts_with("c20.cons.")).unwrap_or(false) {
         return consumer::replay(rep, _case);
+    }
+    // the new streams are replayed whole, from the recorded seed (they are deterministic in it)
+    let op = _case["op"].as_str().or_else(|| _case["case"]["op"].as_str()).unwrap_or("");
+    match op.split('.').nth(1).unwrap_or("") {
+        "llvmrun" => return llvmrun::run(rep, &mut Rng::new(rep.seed ^ 0xC20)),
+        "multitu" => return multitu::run(rep),
+        "realtools" => return realtools::run(rep),
+        _ => {}
     }
     rep.notes.push("replays: re-run ./check C20 with the same seed; programs/layouts are recorded in the replay file".into());
 }
